@@ -601,7 +601,7 @@ def ecdsa_sign(msg, secret, nonce_function=None, extra_data=None, context=_secp.
         raise ValueError("Message should be 32 bytes long")
     if len(secret) != 32:
         raise ValueError("Secret key should be 32 bytes long")
-    if extra_data and len(extra_data) != 32:
+    if extra_data is not None and len(extra_data) != 32:
         raise ValueError("Extra data should be 32 bytes long")
     sig = bytes(64)
     r = _secp.secp256k1_ecdsa_sign(
@@ -784,6 +784,8 @@ def schnorrsig_sign(
     msg, keypair, nonce_function=None, extra_data=None, context=_secp.ctx
 ):
     assert len(msg) == 32
+    if extra_data is not None and len(extra_data) != 32:
+        raise ValueError("Extra data should be 32 bytes long")
     if len(keypair) == 32:
         keypair = keypair_create(keypair, context=context)
     with _lock:
